@@ -86,6 +86,8 @@ class World:
 
         self.regions = []  # (id, off term, size int) of allocations / reserved explicit regions
         self._disj = {}
+        self._rcache = {}
+        self._dcache = {}
 
     def mark(self):
         return len(self.journal), len(self.events)
@@ -99,6 +101,15 @@ class World:
 
     def region_of(self, addr, n):
         """id of the region [off, off+size) that syntactically contains [addr, addr+n), else None"""
+        key = (addr.get_id(), n, len(self.regions))
+        hit = self._rcache.get(key)
+        if hit is not None:
+            return hit[1]
+        r = self._region_of(addr, n)
+        self._rcache[key] = (addr, r)  # the term is kept alive: z3 reuses the ids of freed ASTs
+        return r
+
+    def _region_of(self, addr, n):
         for rid, off, size in reversed(self.regions):
             d = z3.simplify(addr - off)
             if z3.is_int_value(d):
@@ -107,6 +118,23 @@ class World:
                     return rid
                 return None
         return None
+
+    def region_vs_copy(self, rid, rec):
+        """'in' / 'out' if the whole region provably lies inside / outside the range a block copy (growth)
+        filled, else None; one or two queries per (region, copy record) and path"""
+        key = ("cp", rid, id(rec))
+        if key in self._disj:
+            return self._disj[key]
+        _, off, size = self.regions[rid]
+        _, dst, smem, saddr, ln = rec
+        e = symx.engine()
+        r = None
+        if e.ask(z3.Not(z3.And(off >= dst, off + size <= dst + ln))) == "unsat":
+            r = "in"
+        elif e.ask(z3.Not(z3.Or(off + size <= dst, off >= dst + ln))) == "unsat":
+            r = "out"
+        self._disj[key] = r
+        return r
 
     def disjoint(self, ra, rb):
         """proved on the current path: regions ra and rb do not overlap (one query per pair and path)"""
@@ -132,13 +160,20 @@ class Mem:
             return
         a = T(addr)
         self.log.append(("st", a, list(cells), self.world.region_of(a, len(cells))))
-        self.world.journal.append((self, a, len(cells)))
+        self.world.journal.append((self, a, len(cells), len(self.log) - 1))
         self.world.stats["stores"] += 1
 
     def _dist(self, addr, so, n, ln):
-        d = z3.simplify(addr - so)
-        if z3.is_int_value(d):
-            d = d.as_long()
+        ck = (addr.get_id(), so.get_id())
+        hit = self.world._dcache.get(ck)
+        if hit is None:
+            d = z3.simplify(addr - so)
+            if z3.is_int_value(d):
+                d = d.as_long()
+            self.world._dcache[ck] = (addr, so, d)  # terms kept alive: z3 reuses the ids of freed ASTs
+        else:
+            d = hit[2]
+        if isinstance(d, int):
             return d if -n < d < ln else None
         e = symx.engine()
         for _ in range(64):
@@ -153,13 +188,14 @@ class Mem:
                 return dv
         raise symx.Truncated()
 
-    def read(self, addr, n):
+    def read(self, addr, n, upto=None):
+        """cells at [addr, addr+n); with `upto`, as they were before log record number `upto` was appended"""
         addr = T(addr)
         out = [None] * n
         need = n
         self.world.stats["reads"] += 1
         rid = self.world.region_of(addr, n)
-        for rec in reversed(self.log):
+        for rec in reversed(self.log if upto is None else self.log[:upto]):
             if rec[0] == "st":
                 _, so, cells, srid = rec
                 if rid is not None and srid is not None and rid != srid and self.world.disjoint(rid, srid):
@@ -177,7 +213,10 @@ class Mem:
                 e = symx.engine()
                 inside = z3.And(addr >= dst, addr + n <= dst + ln)
                 outside = z3.Or(addr + n <= dst, addr >= dst + ln)
-                if e.decide(inside):
+                where = self.world.region_vs_copy(rid, rec) if rid is not None else None
+                if where == "out":
+                    continue
+                if where == "in" or e.decide(inside):
                     sub = smem.read(saddr + (addr - dst), n)
                     for k in range(n):
                         if out[k] is None:
